@@ -15,6 +15,7 @@ EXPLANATION = (
     "same-named accessor of the source entry; (4) the sub-second part of a timestamp, which is negative before the "
     "epoch, never reaches an unsigned conversion without a sign test; (5) the stored mode mask is 0o7777 on both "
     "conversions and both time components are used; every Ok path of copy_dir/copy_symlink/copy_file records an entry."
+    " Added in later rounds: the entry recorded for a directory, symlink or file is metadata_from(source_entry) with only addresses taken from the basis (C01.3e); the sign handling of unix_seconds_and_nanos is checked path-sensitively, including the borrow (C01.4/4b); restore_file writes every address in order (C01.7), store_file_content records every non-empty buffer (C01.8), the walk never follows links (C01.9)."
 )
 UNDECIDED = ["byte equality of content", "block splitting arithmetic", "completeness of the source walk for all trees", "all option combinations"]
 ASSUMPTIONS = ["chown(2) clears setuid/setgid bits (kernel semantics)"]
